@@ -217,7 +217,8 @@ impl AssemblyCode {
                             cycles: inst.cycles,
                             cycles_alt: inst.cycles_alt,
                             nb_bytes: inst.nb_bytes,
-                            protected: false,
+                            // Keep the mark: the optimizer runs again on the inlining function
+                            protected: inst.protected,
                         }));
                     }
                     _ => self.code.push(i.clone()),
